@@ -17,4 +17,40 @@ theorem begun_path_okd {g : Graph} {s : St} (hi : Inv g s) {p x : Nat} (hpx : Pa
   | single h => exact begun_preds_okd hi hx _ h
   | cons _ hq ih => exact ih (hi.okBegun _ (begun_preds_okd hi hx _ hq))
 
+/-- Only nodes of the graph are ever begun. -/
+theorem begun_in_nodes {g : Graph} (hg : g.WF) {cfg : Cfg} {s : St} (h : Reach g cfg s) :
+    ∀ x ∈ s.begun, x ∈ g.nodes := by
+  intro x hx
+  have hi := inv_reach hg h
+  have h1 := hi.begunCnt x hx
+  have h2 := hi.place x
+  have h3 : 0 < s.enq.count x := by omega
+  have h4 : x ∈ s.enq := List.count_pos_iff.mp h3
+  clear h1 h2 h3 hx
+  induction h with
+  | init => simp [init, sources] at h4; exact h4.1
+  | step l hr hs ih =>
+    have hi' := inv_reach hg hr
+    cases l <;> simp only [step?] at hs
+    case release w y =>
+      split at hs
+      · next x' todo hw =>
+        split at hs
+        · next hyt =>
+          cases hs
+          simp only at h4
+          split at h4
+          · simp only [List.mem_append, List.mem_singleton] at h4
+            rcases h4 with h4 | h4
+            · exact ih hi' h4
+            · subst h4
+              have := (hi'.relsing x' todo (List.mem_of_getElem? hw)).2.2.1 x hyt
+              exact (hg.succsNodes _ _ this.1).2
+          · exact ih hi' h4
+        · cases hs
+      · cases hs
+    all_goals
+      repeat' split at hs
+      all_goals first | (cases hs; exact ih hi' h4) | cases hs
+
 end Uberjob.Engine
